@@ -24,6 +24,7 @@ type SEnv struct {
 	ct      *Contract
 	block   *ssa.BasicBlock // current block (for local lookup), may be nil
 	depth   int
+	qfacts  *[]Term
 	localsFirst bool // identifiers denote current values of locals/params (loop invariants, call-site asserts)
 }
 
@@ -62,6 +63,25 @@ func (e *SEnv) pkg() *types.Package {
 		return f.Object().Pkg()
 	}
 	return nil
+}
+
+// load reads a value from the heap of st and records its typing facts: outside
+// quantifiers they are assumed (under st's path condition); inside a
+// quantifier they become an antecedent of the body.
+func (e *SEnv) load(st *State, ref, off Term, t types.Type) Val {
+	vc := e.vc
+	v := vc.loadAt(st, ref, off, t)
+	f := vc.wellTyped(st, v)
+	if f != tTrue {
+		if vc.inQuant > 0 {
+			if e.qfacts != nil {
+				*e.qfacts = append(*e.qfacts, f)
+			}
+		} else {
+			vc.assume(st, f)
+		}
+	}
+	return v
 }
 
 // stOf: the state in which references held by v are dereferenced.
@@ -109,7 +129,7 @@ func (e *SEnv) eval(x SExpr) Val {
 			if !ok {
 				e.fail("dereference of non-pointer %v", v.T)
 			}
-			r := vc.loadAt(e.stOf(v), v.S[0], v.S[1], pt.Elem())
+			r := e.load(e.stOf(v), v.S[0], v.S[1], pt.Elem())
 			r.Old = v.Old
 			return r
 		case "&":
@@ -284,12 +304,17 @@ func (e *SEnv) quant(x *SQuant) Val {
 		n.vars[v.Name] = val
 		_ = guards
 	}
+	var facts []Term
+	n.qfacts = &facts
 	vc.inQuant++
 	body := n.evalBool(x.Body)
 	vc.inQuant--
 	q := "exists"
 	if x.Forall {
 		q = "forall"
+		body = tImp(tAnd(dedupTerms(facts)...), body)
+	} else {
+		body = tAnd(append(dedupTerms(facts), body)...)
 	}
 	return boolVal(fmt.Sprintf("(%s (%s) %s)", q, strings.Join(binders, " "), body))
 }
@@ -392,7 +417,7 @@ func (e *SEnv) object(obj types.Object) Val {
 		if o.Pkg() != nil {
 			if sp := vc.p.ssa.Package(o.Pkg()); sp != nil {
 				if g, ok := sp.Members[o.Name()].(*ssa.Global); ok {
-					return vc.loadAt(e.cur, tInt(int64(vc.p.globalRef(g))), "0", o.Type())
+					return e.load(e.cur, tInt(int64(vc.p.globalRef(g))), "0", o.Type())
 				}
 			}
 		}
@@ -477,7 +502,7 @@ func (e *SEnv) fieldOf(base Val, name string) Val {
 			off := vc.p.lay.fieldOffset(stt, idx)
 			ft := stt.Field(idx).Type()
 			o := cur.Old
-			cur = vc.loadAt(e.stOf(cur), cur.S[0], tAdd(cur.S[1], tInt(int64(off))), ft)
+			cur = e.load(e.stOf(cur), cur.S[0], tAdd(cur.S[1], tInt(int64(off))), ft)
 			cur.Old = o
 			continue
 		}
@@ -517,7 +542,7 @@ func (e *SEnv) addr(x SExpr) Val {
 				return addr
 			}
 			if _, ptrField := ft.Underlying().(*types.Pointer); ptrField {
-				cur = vc.loadAt(e.cur, addr.S[0], addr.S[1], ft)
+				cur = e.load(e.cur, addr.S[0], addr.S[1], ft)
 			} else {
 				cur = addr
 			}
@@ -543,7 +568,7 @@ func (e *SEnv) index(x *SIndex) Val {
 		if arr, ok := pt.Elem().Underlying().(*types.Array); ok {
 			i := e.eval(x.I).S[0]
 			es := vc.p.lay.size(arr.Elem())
-			r := vc.loadAt(e.stOf(base), base.S[0], vc.elemOff(base.S[1], i, es), arr.Elem())
+			r := e.load(e.stOf(base), base.S[0], vc.elemOff(base.S[1], i, es), arr.Elem())
 			r.Old = base.Old
 			return r
 		}
@@ -552,7 +577,7 @@ func (e *SEnv) index(x *SIndex) Val {
 	case *types.Slice:
 		i := e.eval(x.I).S[0]
 		es := vc.p.lay.size(u.Elem())
-		r := vc.loadAt(e.stOf(base), base.S[0], vc.elemOff(base.S[1], i, es), u.Elem())
+		r := e.load(e.stOf(base), base.S[0], vc.elemOff(base.S[1], i, es), u.Elem())
 		r.Old = base.Old
 		return r
 	case *types.Basic:
@@ -733,7 +758,7 @@ func (e *SEnv) call(x *SCall) Val {
 				off := vc.p.lay.fieldOffset(stt, idx)
 				ft := stt.Field(idx).Type()
 				if _, fp := ft.Underlying().(*types.Pointer); fp {
-					recv = vc.loadAt(e.cur, recv.S[0], tAdd(recv.S[1], tInt(int64(off))), ft)
+					recv = e.load(e.cur, recv.S[0], tAdd(recv.S[1], tInt(int64(off))), ft)
 				} else {
 					recv = Val{T: types.NewPointer(ft), S: []Term{recv.S[0], tAdd(recv.S[1], tInt(int64(off)))}}
 				}
@@ -760,7 +785,7 @@ func (e *SEnv) call(x *SCall) Val {
 		}
 		if !wantPtr && havePtr {
 			pt := types.Unalias(recv.T).Underlying().(*types.Pointer)
-			recv = vc.loadAt(e.cur, recv.S[0], recv.S[1], pt.Elem())
+			recv = e.load(e.cur, recv.S[0], recv.S[1], pt.Elem())
 		}
 		args := []Val{recv}
 		for _, a := range x.Args {
@@ -874,4 +899,16 @@ func (e *SEnv) pureCall(fn *ssa.Function, args []Val) Val {
 		e.fail("function %s never returns normally", key)
 	}
 	return res
+}
+
+func dedupTerms(ts []Term) []Term {
+	seen := map[Term]bool{}
+	var out []Term
+	for _, t := range ts {
+		if !seen[t] {
+			seen[t] = true
+			out = append(out, t)
+		}
+	}
+	return out
 }
